@@ -155,6 +155,7 @@ class Repo:
             for rel in overlay:
                 if rel.endswith(".py"):
                     r._inlined.pop(rel, None)
+                    r._auto_inline_one(r.by_rel[rel])
         return r
 
     # ------------------------------------------------------------------ helper-inlined view of every module
@@ -163,7 +164,13 @@ class Repo:
         (the identifiers the property module mentions: its anchors) is kept; every other private helper is folded into
         its callers. Returns the number of inlined calls."""
         self._auto_words = set(words)
-        return 0  # lazily, per module, on first access through module()/func()/cls()/methods()
+        total = 0
+        # only a module that has a private function outside the confirmed baseline (and outside the checker's own vocabulary) is
+        # rewritten, so this costs nothing on the tree the rules were confirmed on
+        for m in list(self.by_rel.values()):
+            if m.rel not in getattr(self, "_inlined", {}):
+                total += self._auto_inline_one(m)
+        return total
 
     def _auto_inline_one(self, m: "Module") -> int:
         words = self._auto_words
